@@ -3,7 +3,10 @@ PROP = {'rule': 'rapid-generated cases: node capacity (1-256 cpu, 1 GiB-4 TiB), 
          '(cpu policy nil/usage/maxUsageRequest/request(unsupported), memory policy nil/usage/request/maxUsageRequest, reclaim '
          'thresholds 0-200, percentage caps nil/0-200, degrade minutes), 0-8 pods (0-14 thorough) over the legal priority x QoS '
          'combinations (label or spec.priority, boundary values), phases, 1-3 containers, with/without metric, usage below/equal/above '
-         'request, NUMA annotation; dangling pod metrics and host applications of every priority; no NRT / NRT with 0-4 zones. '
+         'request, NUMA annotation (valid ids, mixed with ids that do not exist on the node, or only such ids); dangling pod metrics '
+         'and host applications of every priority; no NRT / NRT with 0-4 zones; in half of the cases the strategy is resolved the '
+         'way the controller does (sloconfig.GetNodeColocationStrategy on the cluster config and the node) with per-node ratio '
+         'labels cpu/memory-reclaim-ratio resp. mid-static-*-reserved-ratio: absent, 0, (0,1), 1, >1, negative, junk. '
          'batchBound: non-trivial = an active high-priority pod without metric AND one with usage > request AND a node amount strictly '
          'between 0 and the percentage cap. batchMonotone: one consumption input raised (or a metric with usage==request deleted); '
          'non-trivial = the raise strictly lowered a published amount (or, for the deleted metric, the base amount was positive). '
@@ -12,8 +15,13 @@ PROP = {'rule': 'rapid-generated cases: node capacity (1-256 cpu, 1 GiB-4 TiB), 
  'assumptions': ['a reported NodeMetric status always carries status.nodeMetric together with status.updateTime (what koordlet writes); '
                  'the never-reported case (empty status) is generated separately in batchStale',
                  'pods carry only legal priority/QoS combinations; container limits are never set without a request (API-server '
-                 'defaulting); pod keys and pod-metric keys are unique; NUMA annotations hold unique valid zone ids and NRT zones '
-                 'are listed in NUMA-id order',
+                 'defaulting); pod keys and pod-metric keys are unique; NUMA annotations hold unique ids and NRT zones '
+                 'are listed in NUMA-id order; ids outside [0, zones) are ignored for the divisor and a pod without any valid id is '
+                 'spread evenly over all zones (documented in GetPodNUMARequestAndUsage)',
+                 'per-node ratio labels: a parsable float >= 0 overrides the configured percentage with ratio*100 (exact rational in '
+                 'the oracle; the code truncates to an integer percent, which only lowers the published amount); unparsable or '
+                 'negative values are ignored (apis/extension/node_colocation.go: the illegal value will be ignored); NaN/Inf and '
+                 'node-annotation strategies are not generated',
                  'memory policy "request" is checked against its documented formula (capacity - margin - node reservation - '
                  'sum of high-priority requests): by design it does not look at system usage or dangling usage',
                  'qos=LSE pods are charged their cpu REQUEST under the usage policy (documented: LSE does not reclaim cpu); the '
